@@ -34,6 +34,8 @@ OversizeMeasure == [msgs |-> [x \in {"1"} |-> "size:5000"]] @@
 \* a body of undeclared length that breaks off while it is being buffered
 CutMeasure == [OversizeMeasure EXCEPT !.cl.cut = "at:7"] 
 GzCorrupt == [OkStreamGzip EXCEPT !.cl.frames = <<[Frame(1, TRUE) EXCEPT !.fault = "gzcorrupt"]>>]
+\* flagged compressed, but the bytes are not a gzip stream at all (the decompressor's Reset fails)
+NotGzip == [OkStreamGzip EXCEPT !.cl.frames = <<[Frame(1, TRUE) EXCEPT !.fault = "rawflagged"]>>]
 Undecodable == [OkUnary EXCEPT !.cl.frames = <<[Frame(1, FALSE) EXCEPT !.fault = "undecodable"]>>]
 \* the handler closes the request body from one goroutine while another is blocked in a Read in the
 \* middle of a message of a decoded (transforming) request stream; the rest of the message arrives later
@@ -53,13 +55,13 @@ BackendPanic == [OkUnary EXCEPT !.hd.exit = "panic"]
 BackendError == [OkStreamGzip EXCEPT !.hd.end.code = 8, !.hd.errat = 0]
 BigResponse == [msgs |-> [x \in {"9"} |-> "size:5000"]] @@ OkUnary
 
-Kinds == {OkUnary, OkStreamGzip, RejectCodec, CutMid, Oversize, OversizeMeasure, CutMeasure, GzCorrupt, Undecodable,
+Kinds == {OkUnary, OkStreamGzip, RejectCodec, CutMid, Oversize, OversizeMeasure, CutMeasure, GzCorrupt, NotGzip, Undecodable,
           BackendPanic, BackendError, BigResponse, CloseRace, DuplexFault, DuplexFaultJson, RespUndecodable}
 Probes == {OkUnary, OkStreamGzip, OkRest, OkServerStream}
 
 HInit == hist = <<>> /\ pr = OkUnary /\ hph = "grow" /\ Init
 Grow == /\ hph = "grow" /\ Len(hist) < (IF What = "history" THEN MaxHist ELSE NConc)
-        /\ \E k \in (IF What = "history" THEN Kinds ELSE Probes \cup {CutMid, Oversize, OversizeMeasure, GzCorrupt, BackendError, CloseRace, DuplexFault, DuplexFaultJson, RespUndecodable}) : hist' = Append(hist, k)
+        /\ \E k \in (IF What = "history" THEN Kinds ELSE Probes \cup {CutMid, Oversize, OversizeMeasure, GzCorrupt, NotGzip, BackendError, CloseRace, DuplexFault, DuplexFaultJson, RespUndecodable}) : hist' = Append(hist, k)
         /\ UNCHANGED <<pr, hph>>
 Pick == /\ hph = "grow"
         /\ (What = "conc" => Len(hist) >= 2)
